@@ -43,6 +43,7 @@ BODIES = [
   (('var', 'stats', 'a', 'acc'), ('param', 'a', 's')),
   (('var', 'cnt', 'a', 'count'), ('var', 'stats', 'b', 'read'), ('param', 'b', 'v')),
   (('param', 'a', 's'), ('rng', 'dropout'), ('var', 'cnt', 'a', 'count')),
+  (('param', 'a', 'm'), ('var', 'cnt', 'a', 'count')),     # rank-2 parameter: rank-3 when stacked
 ]
 
 
@@ -64,7 +65,7 @@ def _cols(body):
 
 def _vector_only(body, col):
   """axis 1 needs rank >= 1 before stacking: only collections of vector params"""
-  return col == 'params' and all(st[2] == 'v' for st in body if st[0] == 'param')
+  return col == 'params' and all(st[2] in ('v', 'm') for st in body if st[0] == 'param')
 
 
 def units(tier, seed):
@@ -108,12 +109,15 @@ def _mods():
     def __call__(self, c, xs):
       if isinstance(xs, dict):
         inp = c + xs['u'] + 2.0 * xs['v']
+      elif xs.ndim == 2:        # rank-2 slice (rank-3 operand scanned over a middle / last axis)
+        inp = c + xs @ np.array([1.0, 2.0], np.float32)
       else:
         inp = c + xs
       o = dsl._compact_call(self, inp)
       ks = o['k']
       kk = np.zeros((0, 2), np.uint32) if not ks else __import__('jax').numpy.stack(ks)
-      return o['x'], {'y': o['x'] * 2.0 + 1.0, 'k': kk}
+      z = o['x'][:, None] * np.array([[1.0, 2.0, 3.0]], np.float32)   # rank-2 output per step
+      return o['x'], {'y': o['x'] * 2.0 + 1.0, 'z': z, 'k': kk}
 
   class Chain(nn.Module):
     d: tuple = ()
@@ -234,10 +238,15 @@ def _scan(res, unit):
   key_rngs = {'params': jax.random.key(1), 'dropout': jax.random.key(2)}
   b = bounds(tier)
   configs = []
-  for L in b['lengths']:
-    for reverse in b['reverse']:
-      for unroll in (b['unroll'] if L > 1 else [1]):
-        for xform in ('arr0', 'arr1', 'arr-1', 'dict', 'bcast'):
+  if tier == 'quick':
+    lru = [(3, False, 1), (3, True, 1), (3, False, 2), (1, False, 1)]
+  else:
+    lru = [(L, r, u) for L in b['lengths'] for r in b['reverse']
+           for u in (b['unroll'] if L > 1 else [1])]
+  for (L, reverse, unroll) in lru:
+    if True:
+      if True:
+        for xform in ('arr0', 'arr1', 'arr-1', 'dict', 'bcast', 'r3ax1', 'r3ax-1'):
           for oax in ((0, 1, -1) if xform == 'arr0' else (0,)):
             for cci in ((True, False) if (xform == 'arr0' and oax == 0) else (True,)):
               for split in ((True, False) if has_rng and xform == 'arr0' and oax == 0 else (True,)):
@@ -254,6 +263,13 @@ def _scan(res, unit):
       xs, in_axes, xs_list = xs_arr.T.copy(), 1, [xs_arr[i] for i in range(L)]
     elif xform == 'arr-1':
       xs, in_axes, xs_list = xs_arr.T.copy(), -1, [xs_arr[i] for i in range(L)]
+    elif xform in ('r3ax1', 'r3ax-1'):
+      x3 = np.stack([xs_arr, xs_arr * 2 + 1], axis=-1)          # (L, 2, 2)
+      xs_list = [x3[i] for i in range(L)]
+      if xform == 'r3ax1':
+        xs, in_axes = np.moveaxis(x3, 0, 1).copy(), 1           # (2, L, 2)
+      else:
+        xs, in_axes = np.moveaxis(x3, 0, 2).copy(), -1          # (2, 2, L)
     elif xform == 'dict':
       xs = {'u': xs_arr, 'v': (xs_arr.T * 2).copy()}
       in_axes = ({'u': 0, 'v': 1},)
@@ -319,6 +335,10 @@ def _scan(res, unit):
           if canon_tree(np_tree(updT.get(col))) != canon_tree(finalL.get(col)):
             V('vars', f'collection {col} after the scan differs from the loop', mutable=mut,
               observed=np_tree(updT.get(col)), expected=finalL.get(col))
+      zL = np.stack([np.asarray(y['z']) for y in ysL], axis=oax if oax >= 0 else 2)
+      if not has_rng and canon_tree(np.asarray(yT['z'])) != canon_tree(zL):
+        V('zs', 'stacked rank-2 outputs differ from the Python loop (axis placement)',
+          mutable=mut, observed=yT['z'], expected=zL)
       if has_rng:
         kk = np.asarray(yT['k'])
         kk = np.moveaxis(kk, oax % kk.ndim, 0) if kk.ndim == 3 else kk
@@ -558,4 +578,73 @@ def _remat_scan(res, unit):
                          f'collection {cname} after remat_scan differs from the loop', cfg)
       core.outcome(res, 'remat_scan:ok')
     res['nontrivial'].append(core.h(['rs', key]))
+    # --- explicit roles: one collection carried or broadcast, the others on axis 0 -----------
+    cols = _cols(body)
+    single = inits[0]
+    for special in cols:
+      for role in ('carry', 'bc'):
+        if role == 'bc' and special in writes:
+          continue       # a written broadcast collection is not described by the statement
+        if role == 'carry' and special == 'params' and False:
+          continue
+        axes_cols = [c for c in cols if c != special]
+        vars2 = {}
+        for c in cols:
+          if c == special:
+            vars2[c] = single[c]
+          else:
+            vars2[c] = jax.tree.map(
+              lambda a: (np.stack([np.asarray(a)] * n).reshape(tuple(lengths) + np.shape(a)) +
+                         np.arange(n, dtype=np.float32).reshape(
+                           tuple(lengths) + (1,) * np.ndim(a))), single[c])
+        kw = dict(variable_axes={c: 0 for c in axes_cols} or {'__none__': 0},
+                  split_rngs={'params': True})
+        if role == 'carry':
+          kw['variable_carry'] = special
+        else:
+          kw['variable_broadcast'] = special
+        RS2 = nn.remat_scan(Chain, lengths=tuple(lengths), **kw)
+        mut = sorted(set(writes) | ({special} if role == 'carry' else set()))
+        k2 = f'{key}|{special}={role}'
+        res['evals'] += 1
+        try:
+          r = RS2(d=body).apply(jx(vars2), x, mutable=mut if mut else False)
+        except Exception as e:  # noqa
+          core.violation(res, f'remat_scan-roles-raises|{k2}',
+                         f'remat_scan({special}={role}) raised {type(e).__name__}: '
+                         f'{str(e)[:200]}', dict(cfg, special=special, role=role))
+          continue
+        oA, updA = (r if mut else (r, {}))
+        c = x
+        cur = dict(vars2)
+        news = {cn: [] for cn in mut if cn != special}
+        for i in range(n):
+          idx = np.unravel_index(i, tuple(lengths))
+          vi = {cn: (cur[cn] if cn == special else jax.tree.map(lambda a: np.asarray(a)[idx],
+                                                                cur[cn])) for cn in cols}
+          ri = Chain(d=body).apply(jx(vi), c, mutable=mut if mut else False)
+          c, ui = (ri if mut else (ri, {}))
+          for cn in mut:
+            if cn == special:
+              cur[cn] = np_tree(ui[cn])
+            else:
+              news[cn].append(np_tree(ui[cn]))
+        if canon_tree(np.asarray(oA)) != canon_tree(np.asarray(c)):
+          core.violation(res, f'remat_scan-roles-out|{k2}',
+                         f'remat_scan({special}={role}) output differs from the chained loop',
+                         dict(cfg, special=special, role=role))
+        if role == 'carry' and canon_tree(np_tree(updA.get(special))) != canon_tree(cur[special]):
+          core.violation(res, f'remat_scan-roles-carry|{k2}',
+                         f'carried collection {special} after remat_scan differs from the loop',
+                         dict(cfg, special=special, role=role),
+                         observed=jsonable(np_tree(updA.get(special))),
+                         expected=jsonable(cur[special]))
+        for cn, lst in news.items():
+          e = jax.tree.map(lambda a: a.reshape(tuple(lengths) + a.shape[1:]), _stack(lst, 0))
+          if canon_tree(np_tree(updA.get(cn))) != canon_tree(e):
+            core.violation(res, f'remat_scan-roles-vars|{k2}|{cn}',
+                           f'collection {cn} after remat_scan differs from the loop',
+                           dict(cfg, special=special, role=role))
+        core.outcome(res, f'remat_scan:roles-ok:{role}')
+        res['nontrivial'].append(core.h(['rs-roles', k2]))
   res['samples'].append(dict(kind='remat_scan', body=dsl.tolist(body)))
